@@ -1,4 +1,309 @@
 package main
 
-// further extension points (histories, reports, concurrency)
-func runOpExt3(f []string) (string, bool) { return "", false }
+import (
+	"bytes"
+	"errors"
+	"fmt"
+	"io"
+	"reflect"
+	"sort"
+	"strconv"
+	"strings"
+	"text/template"
+
+	"github.com/goark/go-cvss/cvsserr"
+	m3 "github.com/goark/go-cvss/v3/metric"
+	"github.com/goark/go-cvss/v3/report"
+	"github.com/goark/go-cvss/v3/report/names"
+	"golang.org/x/text/language"
+)
+
+// ---- names (C18): every exported function of v3/report/names by name
+var titleFns = map[string]func(language.Tag) string{
+	"AttackComplexity":              names.AttackComplexity,
+	"AttackVector":                  names.AttackVector,
+	"AvailabilityImpact":            names.AvailabilityImpact,
+	"AvailabilityRequirement":       names.AvailabilityRequirement,
+	"BaseMetrics":                   names.BaseMetrics,
+	"BaseMetricsValueOf":            names.BaseMetricsValueOf,
+	"ConfidentialityImpact":         names.ConfidentialityImpact,
+	"ConfidentialityRequirement":    names.ConfidentialityRequirement,
+	"EnvironmentalMetrics":          names.EnvironmentalMetrics,
+	"EnvironmentalMetricsValueOf":   names.EnvironmentalMetricsValueOf,
+	"Exploitability":                names.Exploitability,
+	"IntegrityImpact":               names.IntegrityImpact,
+	"IntegrityRequirement":          names.IntegrityRequirement,
+	"ModifiedAttackComplexity":      names.ModifiedAttackComplexity,
+	"ModifiedAttackVector":          names.ModifiedAttackVector,
+	"ModifiedAvailabilityImpact":    names.ModifiedAvailabilityImpact,
+	"ModifiedConfidentialityImpact": names.ModifiedConfidentialityImpact,
+	"ModifiedIntegrityImpact":       names.ModifiedIntegrityImpact,
+	"ModifiedPrivilegesRequired":    names.ModifiedPrivilegesRequired,
+	"ModifiedScope":                 names.ModifiedScope,
+	"ModifiedUserInteraction":       names.ModifiedUserInteraction,
+	"PrivilegesRequired":            names.PrivilegesRequired,
+	"RemediationLevel":              names.RemediationLevel,
+	"ReportConfidence":              names.ReportConfidence,
+	"Scope":                         names.Scope,
+	"Severity":                      names.Severity,
+	"TemporalMetrics":               names.TemporalMetrics,
+	"TemporalMetricsValueOf":        names.TemporalMetricsValueOf,
+	"UserInteraction":               names.UserInteraction,
+}
+
+var valueFns = map[string]func(int, language.Tag) string{
+	"AVValueOf":       func(v int, l language.Tag) string { return names.AVValueOf(m3.AttackVector(v), l) },
+	"ACValueOf":       func(v int, l language.Tag) string { return names.ACValueOf(m3.AttackComplexity(v), l) },
+	"PRValueOf":       func(v int, l language.Tag) string { return names.PRValueOf(m3.PrivilegesRequired(v), l) },
+	"UIValueOf":       func(v int, l language.Tag) string { return names.UIValueOf(m3.UserInteraction(v), l) },
+	"SValueOf":        func(v int, l language.Tag) string { return names.SValueOf(m3.Scope(v), l) },
+	"CValueOf":        func(v int, l language.Tag) string { return names.CValueOf(m3.ConfidentialityImpact(v), l) },
+	"IValueOf":        func(v int, l language.Tag) string { return names.IValueOf(m3.IntegrityImpact(v), l) },
+	"AValueOf":        func(v int, l language.Tag) string { return names.AValueOf(m3.AvailabilityImpact(v), l) },
+	"EValueOf":        func(v int, l language.Tag) string { return names.EValueOf(m3.Exploitability(v), l) },
+	"RLValueOf":       func(v int, l language.Tag) string { return names.RLValueOf(m3.RemediationLevel(v), l) },
+	"RCValueOf":       func(v int, l language.Tag) string { return names.RCValueOf(m3.ReportConfidence(v), l) },
+	"CRValueOf":       func(v int, l language.Tag) string { return names.CRValueOf(m3.ConfidentialityRequirement(v), l) },
+	"IRValueOf":       func(v int, l language.Tag) string { return names.IRValueOf(m3.IntegrityRequirement(v), l) },
+	"ARValueOf":       func(v int, l language.Tag) string { return names.ARValueOf(m3.AvailabilityRequirement(v), l) },
+	"MAVValueOf":      func(v int, l language.Tag) string { return names.MAVValueOf(m3.ModifiedAttackVector(v), l) },
+	"MACValueOf":      func(v int, l language.Tag) string { return names.MACValueOf(m3.ModifiedAttackComplexity(v), l) },
+	"MPRValueOf":      func(v int, l language.Tag) string { return names.MPRValueOf(m3.ModifiedPrivilegesRequired(v), l) },
+	"MUIValueOf":      func(v int, l language.Tag) string { return names.MUIValueOf(m3.ModifiedUserInteraction(v), l) },
+	"MSValueOf":       func(v int, l language.Tag) string { return names.MSValueOf(m3.ModifiedScope(v), l) },
+	"MCValueOf":       func(v int, l language.Tag) string { return names.MCValueOf(m3.ModifiedConfidentialityImpact(v), l) },
+	"MIValueOf":       func(v int, l language.Tag) string { return names.MIValueOf(m3.ModifiedIntegrityImpact(v), l) },
+	"MAValueOf":       func(v int, l language.Tag) string { return names.MAValueOf(m3.ModifiedAvailabilityImpact(v), l) },
+	"SeverityValueOf": func(v int, l language.Tag) string { return names.SeverityValueOf(m3.Severity(v), l) },
+}
+
+func parseTag(s string) language.Tag {
+	switch s {
+	case "en":
+		return language.English
+	case "ja":
+		return language.Japanese
+	}
+	t, err := language.Parse(s)
+	if err != nil {
+		return language.Und
+	}
+	return t
+}
+
+func opNM(fn string, v int, tag string) (string, bool) {
+	l := parseTag(tag)
+	if f, ok := titleFns[fn]; ok {
+		return "name=" + hx(f(l)), true
+	}
+	if f, ok := valueFns[fn]; ok {
+		return "name=" + hx(f(v, l)), true
+	}
+	return "", false
+}
+
+// ---- reports (C17): all exported string fields, embedded reports included, sorted by path
+
+func dumpFields(prefix string, v reflect.Value, out *[]string) {
+	if v.Kind() == reflect.Ptr {
+		if v.IsNil() {
+			*out = append(*out, prefix+"=NIL")
+			return
+		}
+		v = v.Elem()
+	}
+	t := v.Type()
+	for i := 0; i < v.NumField(); i++ {
+		f := t.Field(i)
+		if !f.IsExported() {
+			continue
+		}
+		fv := v.Field(i)
+		switch fv.Kind() {
+		case reflect.String:
+			*out = append(*out, prefix+f.Name+"="+hx(fv.String()))
+		case reflect.Ptr, reflect.Struct:
+			dumpFields(prefix+f.Name+".", fv, out)
+		default:
+			*out = append(*out, prefix+f.Name+"=?"+fv.Kind().String())
+		}
+	}
+}
+
+// mkReport decodes the vector at the level (the result may be invalid: the report is still built
+// from whatever object the decoder left behind) and builds the report of that level.
+func mkReport(level, tag, vec string) (interface{}, string) {
+	opt := report.WithOptionsLanguage(parseTag(tag))
+	switch level {
+	case "B":
+		o := m3.NewBase()
+		_, err := o.Decode(vec)
+		return report.NewBase(o, opt), errTag(err)
+	case "T":
+		o := m3.NewTemporal()
+		_, err := o.Decode(vec)
+		return report.NewTemporal(o, opt), errTag(err)
+	default:
+		o := m3.NewEnvironmental()
+		_, err := o.Decode(vec)
+		return report.NewEnvironmental(o, opt), errTag(err)
+	}
+}
+
+func opR3(level, tag, vec string) string {
+	rep, e := mkReport(level, tag, vec)
+	fields := []string{}
+	dumpFields("", reflect.ValueOf(rep), &fields)
+	sort.Strings(fields)
+	return "e=" + e + " " + strings.Join(fields, " ")
+}
+
+// ---- template export (C19): the library's result next to text/template called directly on the same report
+
+type failReader struct {
+	data []byte
+	n    int
+	pos  int
+}
+
+func (r *failReader) Read(p []byte) (int, error) {
+	if r.pos >= r.n {
+		return 0, errors.New("injected read failure")
+	}
+	k := copy(p, r.data[r.pos:r.n])
+	if k > 1 {
+		k = 1 + k/2 // short reads
+	}
+	r.pos += k
+	return k, nil
+}
+
+type chunkReader struct {
+	data []byte
+	pos  int
+}
+
+func (r *chunkReader) Read(p []byte) (int, error) {
+	if r.pos >= len(r.data) {
+		return 0, io.EOF
+	}
+	k := 3
+	if k > len(p) {
+		k = len(p)
+	}
+	if r.pos+k > len(r.data) {
+		k = len(r.data) - r.pos
+	}
+	copy(p, r.data[r.pos:r.pos+k])
+	r.pos += k
+	return k, nil
+}
+
+type exporter interface {
+	ExportWith(io.Reader) (io.Reader, error)
+	ExportWithString(string) (io.Reader, error)
+}
+
+func resTag(r io.Reader, err error) string {
+	out := ""
+	if r != nil && !(reflect.ValueOf(r).Kind() == reflect.Ptr && reflect.ValueOf(r).IsNil()) {
+		b, rerr := io.ReadAll(r)
+		if rerr != nil {
+			out = "READERR"
+		} else {
+			out = "out:" + hx(string(b))
+		}
+	} else {
+		out = "noout"
+	}
+	return out + "|" + errTag(err)
+}
+
+// opX3: mode in string | reader | chunked | fail:<n> | nilreader | nilreport
+func opX3(level, tag, vec, mode, tmpl string) string {
+	rep, _ := mkReport(level, tag, vec)
+	var ex exporter
+	switch level {
+	case "B":
+		r := rep.(*report.BaseReport)
+		if mode == "nilreport" {
+			r = nil
+		}
+		ex = r
+	case "T":
+		r := rep.(*report.TemporalReport)
+		if mode == "nilreport" {
+			r = nil
+		}
+		ex = r
+	default:
+		r := rep.(*report.EnvironmentalReport)
+		if mode == "nilreport" {
+			r = nil
+		}
+		ex = r
+	}
+	var lib string
+	switch {
+	case mode == "string" || mode == "nilreport":
+		lib = resTag(ex.ExportWithString(tmpl))
+	case mode == "reader":
+		lib = resTag(ex.ExportWith(strings.NewReader(tmpl)))
+	case mode == "chunked":
+		lib = resTag(ex.ExportWith(&chunkReader{data: []byte(tmpl)}))
+	case mode == "nilreader":
+		lib = resTag(ex.ExportWith(nil))
+	case strings.HasPrefix(mode, "fail:"):
+		n, _ := strconv.Atoi(mode[5:])
+		if n > len(tmpl) {
+			n = len(tmpl)
+		}
+		lib = resTag(ex.ExportWith(&failReader{data: []byte(tmpl), n: n}))
+	default:
+		return "bad-mode"
+	}
+	// reference: text/template directly on the report value
+	ref := ""
+	t, err := template.New("ref").Parse(tmpl)
+	if err != nil {
+		ref = "parse-error"
+	} else {
+		buf := &bytes.Buffer{}
+		func() {
+			defer func() {
+				if r := recover(); r != nil {
+					ref = "exec-panic"
+				}
+			}()
+			if err := t.Execute(buf, rep); err != nil {
+				ref = "exec-error"
+			} else {
+				ref = "out:" + hx(buf.String())
+			}
+		}()
+	}
+	_ = cvsserr.ErrInvalidTemplate
+	return fmt.Sprintf("lib=%s ref=%s", lib, ref)
+}
+
+func runOpExt3(f []string) (string, bool) {
+	arg := func(i int) string {
+		if i < len(f) {
+			return f[i]
+		}
+		return ""
+	}
+	switch f[0] {
+	case "NM":
+		v, err := strconv.Atoi(arg(2))
+		if err != nil {
+			return "", false
+		}
+		return opNM(arg(1), v, arg(3))
+	case "R3":
+		return opR3(arg(1), arg(2), unhx(arg(3))), true
+	case "X3":
+		return opX3(arg(1), arg(2), unhx(arg(3)), arg(4), unhx(arg(5))), true
+	}
+	return runOpExt4(f)
+}
